@@ -27,6 +27,7 @@ const (
 	wireName     = "Alice Smith"
 	wireDomain   = "wire.com"
 	wireIssuer   = "http://wire.verif.test/clients/594930e9d50bb175/access-token"
+	wireSameURI  = "wireapp://samesame!d0d0d0d0@wire.com"
 )
 
 var (
@@ -64,6 +65,11 @@ func initWire() (*provisioner.Options, error) {
 	idpSrv = httptest.NewServer(http.HandlerFunc(func(w http.ResponseWriter, r *http.Request) {
 		_ = json.NewEncoder(w).Encode(jose.JSONWebKeySet{Keys: []jose.JSONWebKey{idpKey.Public()}})
 	}))
+	return wireOptions()
+}
+
+// wireOptions: a fresh options value (a provisioner initialises it in place)
+func wireOptions() (*provisioner.Options, error) {
 	blk, err := pemutil.Serialize(wireServer.Public().Key)
 	if err != nil {
 		return nil, err
@@ -77,11 +83,33 @@ func initWire() (*provisioner.Options, error) {
 	}}, nil
 }
 
-// the two identifiers of a Wire order
-func wireIDs() []string {
-	u, _ := json.Marshal(wireid.UserID{Name: wireName, Domain: wireDomain, Handle: wireHandle})
-	d, _ := json.Marshal(wireid.DeviceID{Name: wireName, Domain: wireDomain, ClientID: wireClientID, Handle: wireHandle})
+// the two identifiers of a Wire order; same: the user's handle is the device's client id (an
+// identity provider may issue that; C13-F3)
+func wireIDs(same ...bool) []string {
+	handle, client := wireHandle, wireClientID
+	if len(same) > 0 && same[0] {
+		handle, client = wireSameURI, wireSameURI
+	}
+	u, _ := json.Marshal(wireid.UserID{Name: wireName, Domain: wireDomain, Handle: handle})
+	d, _ := json.Marshal(wireid.DeviceID{Name: wireName, Domain: wireDomain, ClientID: client, Handle: handle})
 	return []string{"wireapp-user:" + string(u), "wireapp-device:" + string(d)}
+}
+
+// wireFacts: what the tokens for a Wire challenge value have to say
+func wireFacts(typ acme.ChallengeType, value string) (name, handle, client, issuer string) {
+	name, handle, client = wireName, wireHandle, wireClientID
+	if typ == acme.WIREOIDC01 {
+		if id, err := wireid.ParseUserID(value); err == nil {
+			name, handle = id.Name, id.Handle
+		}
+	} else if id, err := wireid.ParseDeviceID(value); err == nil {
+		name, handle, client = id.Name, id.Handle, id.ClientID
+	}
+	issuer = wireIssuer
+	if c, err := wireid.ParseClientID(client); err == nil {
+		issuer = "http://wire.verif.test/clients/" + c.DeviceID + "/access-token"
+	}
+	return
 }
 
 func isWire(t acme.ChallengeType) bool { return t == acme.WIREOIDC01 || t == acme.WIREDPOP01 }
@@ -100,16 +128,16 @@ func signJWS(key *jose.JSONWebKey, claims map[string]interface{}) (string, error
 }
 
 // wirePayload builds the client's answer to a Wire challenge of account acct. how: "ok" a token
-// that verifies; "mismatch": well-formed and well-signed, but for another challenge token;
+// that verifies (acc: the account's private key with its key id); "mismatch": well-formed and well-signed, but for another challenge token;
 // "status": signed by an unknown key; anything else: not a JWS.
-func wirePayload(typ acme.ChallengeType, how string, acct int, token, audience string) ([]byte, error) {
+func wirePayload(typ acme.ChallengeType, how string, acc *jose.JSONWebKey, value, token, audience string) ([]byte, error) {
+	wireName, wireHandle, wireClientID, wireIssuer := wireFacts(typ, value)
 	now := time.Now()
 	exp, iat := now.Add(5*time.Minute).Unix(), now.Add(-30*time.Second).Unix()
 	chal := token
 	if how == "mismatch" {
 		chal = "bm90VGhlVG9rZW5PZlRoaXNDaGFsbGVuZ2U"
 	}
-	acc := privKeys[acct]
 	var tok string
 	var err error
 	field := "id_token"
